@@ -19,6 +19,7 @@
   (induction over the schedule with the invariant `Inv`); nothing is bounded.
 -/
 import RotoV.Lemmas.ListConc
+import RotoV.Lemmas.ListTrace
 import RotoV.Generated.C16Facts
 
 namespace RotoV.C16
@@ -53,6 +54,138 @@ theorem eq_trace_as_modelled :
 theorem typed_eq_as_modelled :
     RotoV.Gen.C16.typedEqPtrEqFirst = true ∧ RotoV.Gen.C16.typedEqOrdered = true := by decide
 
+/-- the Rust-side walks over the whole buffer (`List::to_vec`, the typed `==`)
+    happen inside the guards they take: the slice is built from the guard and
+    every element is cloned / compared before the guard goes (fails to check
+    when the walk is moved into a helper whose guard is gone when it returns) —
+    which is why `Op.toVec` and `Op.eq` read the elements in the step that
+    holds the lock(s) -/
+theorem rust_side_walks_under_guard :
+    RotoV.Gen.C16.toVecUnderGuard = true ∧ RotoV.Gen.C16.typedEqWalkUnderGuards = true := by decide
+
+/-- the model has steps for EVERY function above the lock (module `ffi`, the
+    impls of `List`, `IntoIter`, `ErasedList`; enumerated from the source on
+    every run) that takes a list's lock or reaches the element buffer: a new
+    helper through which element memory is reached is not silently outside
+    the theorems (fails to check, and the check names the function) -/
+theorem every_locking_function_is_modelled : RotoV.Gen.C16.unmodelledLockingFns = 0 := by decide
+
+/-! ### T2' — the steps of every operation, derived from its lock trace
+
+  The extractor reduces every modelled function, along every path through its
+  `Arc::ptr_eq` / address comparison, to a raw token trace (schedule points,
+  lock, unlock, buffer access); `skeleton` (Model/ListTrace) cuts it into
+  atomic steps. The theorems below say that these derived steps are, for every
+  operation, argument and step, the lock structure of the model's `opStep`. -/
+
+/-- every one-call method (`push`, `contains(_owned)`, `index(_owned)`, `swap`,
+    `len`, `capacity`, `is_empty`) and `List::to_vec`: one step, which waits for
+    the list's lock, touches the buffer only under the guard and holds nothing
+    when it ends — whether the guard is a temporary or `let`-bound, dropped by
+    hand after the call or not -/
+theorem single_section_skeletons_from_source :
+    skeleton RotoV.Gen.C16.rtPush = skSingle ∧ skeleton RotoV.Gen.C16.rtContains = skSingle ∧
+    skeleton RotoV.Gen.C16.rtContainsOwned = skSingle ∧ skeleton RotoV.Gen.C16.rtIndex = skSingle ∧
+    skeleton RotoV.Gen.C16.rtIndexOwned = skSingle ∧ skeleton RotoV.Gen.C16.rtSwap = skSingle ∧
+    skeleton RotoV.Gen.C16.rtLen = skSingle ∧ skeleton RotoV.Gen.C16.rtCapacity = skSingle ∧
+    skeleton RotoV.Gen.C16.rtIsEmpty = skSingle ∧ skeleton RotoV.Gen.C16.rtToVec = skSingle := by decide
+
+/-- both `get`s: the lookup step takes the lock and keeps it across the
+    schedule point between lookup and use; the clone step releases it -/
+theorem get_skeletons_from_source :
+    skeleton RotoV.Gen.C16.rtGet = skGet ∧ skeleton RotoV.Gen.C16.rtFfiGet = skGet := by decide
+
+/-- `==` (script-side and typed), on each of its three paths -/
+theorem eq_skeletons_from_source :
+    skeleton RotoV.Gen.C16.rtEqSame = skEq .same ∧ skeleton RotoV.Gen.C16.rtEqLt = skEq .lt ∧
+    skeleton RotoV.Gen.C16.rtEqGe = skEq .ge ∧
+    skeleton RotoV.Gen.C16.rtTypedEqSame = skEq .same ∧ skeleton RotoV.Gen.C16.rtTypedEqLt = skEq .lt ∧
+    skeleton RotoV.Gen.C16.rtTypedEqGe = skEq .ge := by decide
+
+/-- `concat`, on each of its three paths -/
+theorem concat_skeletons_from_source :
+    skeleton RotoV.Gen.C16.rtConcatSame = skConcat .same ∧ skeleton RotoV.Gen.C16.rtConcatLt = skConcat .lt ∧
+    skeleton RotoV.Gen.C16.rtConcatGe = skConcat .ge := by decide
+
+/-- the steps of an operation as the *source* has them: the skeleton of the
+    generated trace of the function (and path) the operation runs.
+    (`contains` / `index` of the model stand for the script-side `*_owned`
+    methods and the Rust-side ones, `eq` for the script-side and the typed `==`:
+    `single_section_skeletons_from_source` / `eq_skeletons_from_source` give the
+    others the same skeleton.) -/
+def srcSkel : Op → List SkStep
+  | .get _ _ => skeleton RotoV.Gen.C16.rtGet
+  | .ffiGet _ _ => skeleton RotoV.Gen.C16.rtFfiGet
+  | .push _ _ => skeleton RotoV.Gen.C16.rtPush
+  | .contains _ _ => skeleton RotoV.Gen.C16.rtContainsOwned
+  | .swap _ _ _ => skeleton RotoV.Gen.C16.rtSwap
+  | .len _ => skeleton RotoV.Gen.C16.rtLen
+  | .index _ _ => skeleton RotoV.Gen.C16.rtIndexOwned
+  | .isEmpty _ => skeleton RotoV.Gen.C16.rtIsEmpty
+  | .toVec _ => skeleton RotoV.Gen.C16.rtToVec
+  | .clone _ | .drop _ => skNone
+  | .eq a b =>
+    match pathOf a b with
+    | .same => skeleton RotoV.Gen.C16.rtEqSame
+    | .lt => skeleton RotoV.Gen.C16.rtEqLt
+    | .ge => skeleton RotoV.Gen.C16.rtEqGe
+  | .concat a b =>
+    match pathOf a b with
+    | .same => skeleton RotoV.Gen.C16.rtConcatSame
+    | .lt => skeleton RotoV.Gen.C16.rtConcatLt
+    | .ge => skeleton RotoV.Gen.C16.rtConcatGe
+
+theorem srcSkel_eq_opSkel (op : Op) : srcSkel op = opSkel op := by
+  obtain ⟨p1, p2, p3, p4, p5, p6, p7, _, p9, p10⟩ := single_section_skeletons_from_source
+  obtain ⟨g1, g2⟩ := get_skeletons_from_source
+  obtain ⟨e1, e2, e3, _, _, _⟩ := eq_skeletons_from_source
+  obtain ⟨c1, c2, c3⟩ := concat_skeletons_from_source
+  cases op with
+  | eq a b => simp only [srcSkel, opSkel]; cases pathOf a b <;> simp [e1, e2, e3]
+  | concat a b => simp only [srcSkel, opSkel]; cases pathOf a b <;> simp [c1, c2, c3]
+  | _ => simp [srcSkel, opSkel, *]
+
+/-- **The lock structure of the model's steps is the one derived from the
+    source.** For every operation, every argument and every step `pc` that the
+    skeleton of the source trace has: the mutex `opStep` must find free at `pc`
+    (`NeedsOp`: `opStep_enabled`, `opStep_blocked`) is the lock announced by the
+    schedule point that step starts at; the mutexes the thread holds when it
+    stands at `pc + 1` (`HoldsOp`, the invariant of `no_deadlock`) are the
+    guards alive at the end of that step; and within the step no buffer is
+    touched outside its list's guard and no lock is taken that the schedule
+    point does not announce. (What the step computes under the lock — the
+    `RawList` call — is hand-modelled; C15 owns that refinement.) -/
+theorem lock_structure_derived_from_source (op : Op) (pc : Nat) (st : SkStep)
+    (h : (srcSkel op)[pc]? = some st) :
+    NeedsOp op pc = st.needs.bind (whoIdx op) ∧
+    (∀ l, HoldsOp op (pc + 1) l ↔ l ∈ st.holdsAfter.filterMap (whoIdx op)) ∧
+    st.unguarded = false ∧ st.unhooked = false := by
+  rw [srcSkel_eq_opSkel] at h
+  refine ⟨needsOp_from_skeleton op pc st h, holdsOp_from_skeleton op pc st h, ?_⟩
+  have hm := List.mem_of_getElem? h
+  have all : ∀ s ∈ opSkel op, s.unguarded = false ∧ s.unhooked = false := by
+    cases op with
+    | eq a b => simp only [opSkel]; cases pathOf a b <;> simp [skEq, skNone]
+    | concat a b => simp only [opSkel]; cases pathOf a b <;> simp [skConcat]
+    | _ => simp [opSkel, skGet, skSingle, skNone]
+  exact all st hm
+
+/-- the number of steps of every operation is the number of schedule points of
+    its source (plus none): no step of the model hides a second lock acquisition -/
+theorem step_count_derived_from_source (op : Op) : (srcSkel op).length ≤ op.maxSteps ∧ 0 < (srcSkel op).length := by
+  rw [srcSkel_eq_opSkel]
+  cases op with
+  | eq a b => simp only [opSkel]; cases pathOf a b <;> simp [skEq, skNone, Op.maxSteps]
+  | concat a b => simp only [opSkel]; cases pathOf a b <;> simp [skConcat, Op.maxSteps]
+  | _ => simp [opSkel, skGet, skSingle, skNone, Op.maxSteps]
+
+/-- `NeedsOp` is exactly the enabling condition of the steps of the
+    implementation as it is now: a step whose lock is held does not run … -/
+theorem step_blocked_while_lock_held {t : Nat} {cells : Nat → Cell} {ptr : Option Ptr} {acc : RawList}
+    {op : Op} {pc l : Nat} (hn : NeedsOp op pc = some l) (hheld : (cells l).owner ≠ none) :
+    opStep RotoV.Gen.C16.facts t cells ptr acc op pc = none := by
+  rw [facts_guarded]; exact opStep_blocked hn hheld
+
 /-! ### T1 — linearizability and pointer safety, for all threads / programs / schedules -/
 
 /-- **No stale pointer is ever read, and no element pointer outlives its
@@ -77,6 +210,38 @@ theorem no_stale_pointer_use (lists : List (List Nat)) (progs : List (List Op)) 
   rw [this] at hmem
   obtain ⟨d, hd, hdr⟩ := List.mem_map.1 hmem
   exact hne d (List.mem_filter.1 hd).1 hdr
+
+/-- **A locked list is nobody else's.** In every reachable state, for every
+    list `l` whose mutex thread `t` holds: a step of any *other* thread leaves
+    `l`'s mutex with `t` and `l`'s buffer as it is — same elements, same
+    capacity, same generation (no relocation). So everything an operation does
+    to a list between taking its lock and releasing it — looking an element up
+    and cloning it, walking over all elements (`to_vec`, `==`, `contains`,
+    `index`, the copy of `concat`) — sees one state of that list and reads
+    through addresses that stay valid, however the other threads are scheduled
+    in between. (With `lock_structure_derived_from_source`: every buffer access
+    of the source lies inside such a section.) -/
+theorem locked_list_untouched_by_other_threads (lists : List (List Nat)) (progs : List (List Op))
+    (sched : List Nat) (s : State) (hrun : run RotoV.Gen.C16.facts (init lists progs) sched = some s)
+    (t u l : Nat) (hne : u ≠ t) (hown : (s.cells l).owner = some t)
+    (s' : State) (hstep : step RotoV.Gen.C16.facts u s = some s') :
+    (s'.cells l).owner = some t ∧ (s'.cells l).raw = (s.cells l).raw := by
+  have f := run_facts facts_guarded sched _ _ (inv_init lists progs) hrun
+  exact step_frame facts_guarded f.inv hstep l t (Ne.symm hne) hown
+
+/-- … and so do any number of such steps: however long a walk under the lock
+    takes and however the other threads are scheduled meanwhile (`others`: any
+    schedule that does not contain `t`), the list `t` has locked keeps its
+    buffer — the element-level interleavings the harness runs with probe
+    elements cannot change what the walk sees. -/
+theorem locked_list_stable_while_others_run (lists : List (List Nat)) (progs : List (List Op))
+    (sched : List Nat) (s : State) (hrun : run RotoV.Gen.C16.facts (init lists progs) sched = some s)
+    (t l : Nat) (hown : (s.cells l).owner = some t)
+    (others : List Nat) (hoth : ∀ u ∈ others, u ≠ t)
+    (s' : State) (hrun' : run RotoV.Gen.C16.facts s others = some s') :
+    (s'.cells l).owner = some t ∧ (s'.cells l).raw = (s.cells l).raw := by
+  have f := run_facts facts_guarded sched _ _ (inv_init lists progs) hrun
+  exact run_frame facts_guarded t l others s s' f.inv hoth hown hrun'
 
 /-- **T1 `atomic_ops_linearizable`.** For every number of threads, all programs
     (all operations) and every schedule: the completed operations, *in the order
@@ -226,6 +391,27 @@ example : resultsAfter RotoV.Gen.C16.facts [[1], [2]] [[.concat 0 1], [.concat 1
 example : seqConsistent [[1, 2, 3, 4]] [[.push 0 7], [.concat 0 0]]
     [[.unit], [.list [1, 2, 3, 4, 7, 1, 2, 3, 4, 7]]] = true := by decide
 example : Facts.asWritten ≠ Facts.guarded := by decide
+/-- `locked_list_untouched_by_other_threads` is about something: while thread 0
+    stands between the lookup and the clone of `get` it owns list 0, and thread
+    1 can take a step (on the other list) -/
+example : (run RotoV.Gen.C16.facts (init [[1, 2, 3, 4], [5]] [[.get 0 1], [.push 1 9]]) [0]).map
+    (fun s => ((s.cells 0).owner, (step RotoV.Gen.C16.facts 1 s).isSome)) = some (some 0, true) := by decide
+/-- … `locked_list_stable_while_others_run`: thread 1 does two operations on the
+    other list while thread 0 stands inside `get` -/
+example : ((run RotoV.Gen.C16.facts (init [[1, 2, 3, 4], [5]] [[.get 0 1], [.push 1 9, .len 1]]) [0]).bind
+    (fun s => run RotoV.Gen.C16.facts s [1, 1])).isSome = true := by decide
+/-- the derived skeletons are not trivial: `concat` of two lists has three steps,
+    the second of which starts while `self`'s guard is held -/
+example : (srcSkel (.concat 0 1)).length = 3 ∧ ((srcSkel (.concat 0 1))[0]?).map (·.holdsAfter) = some [.self] := by
+  decide
+/-- … and `skeleton` does tell a clone after the unlock (seeded change C16-2) from one before it -/
+example : skeleton [.point .self, .lock .self, .access .self, .usePoint .self, .unlock .self, .access .self]
+    ≠ skGet := by decide
+/-- … and a walk outside the guard (seeded change C16-7: `to_vec` through a helper) -/
+example : skeleton [.point .self, .access .self] ≠ skSingle := by decide
+/-- `every_locking_function_is_modelled` counts something: the enumeration finds
+    the functions that do take the lock -/
+example : RotoV.Gen.C16.modelledLockingFns ≥ 14 := by decide
 /-- `no_deadlock` is about something: the schedule that deadlocks as written is
     not even a schedule any more (thread 1 is blocked until thread 0 is done) -/
 example : (run RotoV.Gen.C16.facts (init [[1], [2]] [[.eq 0 1], [.eq 1 0]]) [0, 1]).isSome = false := by
